@@ -11,9 +11,8 @@
   shared names, comparison filters, `Aggregate`) evaluated by `IR.eval` (what the code generator's
   `reduce` computes).  Both are tied to the Rust code on every run (`c06.build`, `c06.run`).
 
-  `C06_statement` (plan answer = Spec answer for every rule of the fragment) is refuted by an
-  aggregate that is not the last head term (the `Aggregate` node emits keys first, nothing restores
-  the head order).  `C06_partial` is the strongest part proved for *all* plans of the builder's shape:
+  `C06_statement` (plan answer = Spec answer for every rule of the fragment) is refuted by `sum` over values whose
+  partial sums leave the i64 range (saturation per step) and by an aggregate that is not the last head term.  `C06_partial` is the strongest part proved for *all* plans of the builder's shape:
   the join tree below the `Aggregate` has duplicate-free rows over set-valued relations (each
   satisfying valuation appears exactly once), and the `Aggregate` node returns exactly one row per
   distinct group key with exact count / sum / min / max / count_distinct over those rows.
@@ -30,13 +29,26 @@ def C06_statement : Prop :=
     AggSpec.dbIsSet db = true → IRBuild.buildRule r = some t → AggSpec.specAnswer db r = some want →
     SetEq (answer db t) want
 
-def rBad : DL.Rule := { hrel := "a", hargs := [.agg .count "Z", .var "X"], body := [.pos { rel := "e", args := [.var "X", .var "Z"] }] }
-def dbBad : Db := [("e", [[.i64 1, .i64 5], [.i64 1, .i64 6]])]
+def rBad : DL.Rule := { hrel := "a", hargs := [.agg .sum "Z"], body := [.pos { rel := "e", args := [.var "X", .var "Z"] }] }
+def dbBad : Db :=
+  [("e", [[.i64 0, .i64 (-(2^63))], [.i64 1, .i64 (-(2^63))], [.i64 2, .i64 (2^63 - 1)], [.i64 3, .i64 (2^63 - 1)]])]
 
-/-- `a(count<Z>, X) <- e(X,Z)` over `e = {(1,5),(1,6)}`: the Spec row is `(2,1)`, the plan yields `(1,2)`. -/
+/-- `a(sum<Z>) <- e(X,Z)` over `Z = MIN, MIN, MAX, MAX`: the exact total is `-2`, the saturating fold in
+    tuple order loses one `MIN` and yields `MAX - 1` (known finding `sum_partial_saturation`). -/
 theorem C06_refuted : ¬ C06_statement := by
   intro h
-  have := h dbBad rBad
+  have := h dbBad rBad (.aggregate (.scan "e" ["X", "Z"]) [] [(.sum, 1)] ["sum_Z"]) [[.i64 (-2)]]
+    (by decide) (by decide) (by decide) [.i64 (-2)]
+  revert this
+  decide
+
+/-- second, independent refutation: an aggregate that is not the last head term. `a(count<Z>, X) <- e(X,Z)` over
+    `e = {(1,5),(1,6)}`: the Spec row is `(2,1)`, the plan yields `(1,2)` (the `Aggregate` node emits keys first and
+    nothing restores the head order; known finding `aggregate_not_last_in_head`). -/
+theorem C06_refuted_head_order : ¬ C06_statement := by
+  intro h
+  have := h [("e", [[.i64 1, .i64 5], [.i64 1, .i64 6]])]
+    { hrel := "a", hargs := [.agg .count "Z", .var "X"], body := [.pos { rel := "e", args := [.var "X", .var "Z"] }] }
     (.aggregate (.scan "e" ["X", "Z"]) [0] [(.count, 1)] ["count_Z", "X"]) [[.i64 2, .i64 1]]
     (by decide) (by decide) (by decide) [.i64 2, .i64 1]
   revert this
